@@ -43,6 +43,12 @@ struct Cfg
   bool relchange = false;
   double minrc = 0, maxrc = 0;
   bool other_img = false; // set_up() with ANOTHER image object of the same characteristics than the one given to reconstruct()
+  // domain audit (AUD_E): 'save estimates at subiteration intervals' of THIS run (the checked run always saves every iterate: the
+  // step-by-step formula check needs them); save_b = the interval the resumed runs of the case use.  IterativeReconstruction::set_up
+  // calls error() for an interval outside [1, number of sub-iterations]; files are due where j % interval == 0 and at the last one.
+  int save_interval = 1, save_b = 1;
+  bool file_due(int j) const { return j % save_interval == 0 || j == n_sub; }
+  bool beta_zero = false; // a prior object is set, its penalisation factor is exactly 0
 };
 
 // documented in OSMAPOSLReconstruction::set_up: enforce_initial_positivity lifts non-positive values of the INITIAL
@@ -99,7 +105,11 @@ ref_step(const Fixture& F, const Cfg& k, const std::vector<double>& lam, int sub
   r.next.assign(nv, 0.);
   r.skip.assign(nv, 0);
   std::vector<double> upd(nv, 0.);
-  if (!own.on)
+  // AUD_E: a prior object with penalisation factor exactly 0 IS "no prior" (GeneralisedObjectiveFunction::prior_is_zero(): "no prior or
+  // penalisation factor 0"): the statement's formula is then lambda * num / s for every voxel with s > 0, however small s is (first
+  // version of this sub-domain applied the division threshold of the MAP branch, 0 where numerator and denominator are both below
+  // 1e-6 x the maximum: a false alarm of the reference, STIR returns num / s there)
+  if (!own.on || k.beta_zero)
     {
       for (std::size_t v = 0; v < nv; ++v)
         upd[v] = (num[v] == 0. && s[v] == 0.) ? 0. : num[v] / s[v]; // divide(..., small_num = 0)
@@ -240,6 +250,7 @@ decode(const json& c, const Fixture& F)
   k.prior.kind = c["prior"].get<int>();
   k.prior.kappa = c["kappa"].get<bool>();
   k.prior.kseed = c["dseed"].get<uint64_t>() ^ 0xabcdefULL;
+  k.prior.kzero = c.value("kzero", 0); // exact zeros in the kappa image (c07_recon_common.h make_kappa_image)
   k.prior.rdp_gamma = float(c["rdp_gamma"].get<double>());
   k.prior.rdp_eps = float(c["rdp_eps"].get<double>());
   k.multiplicative = c["map_mult"].get<bool>();
@@ -261,7 +272,9 @@ decode(const json& c, const Fixture& F)
       else if (filter == 2)
         k.fi = decode_filter(g, F);
     }
-  k.n_sub = c.value("n_sub", k.n_sub); // first runs of a history: a number of sub-iterations, not of full iterations
+  k.n_sub = c.value("n_sub", k.n_sub); // a number of sub-iterations, not of full iterations (first runs of a history; AUD_E: runs ending inside an iteration)
+  k.save_b = std::max(1, std::min(c.value("save_b", 1), k.n_sub));
+  k.beta_zero = c.value("beta_zero", false);
   k.enforce = c["enforce"].get<bool>();
   k.relchange = c["relchange"].get<bool>();
   k.minrc = k.relchange ? c["minrc"].get<double>() : 0.;
@@ -283,6 +296,8 @@ decode(const json& c, const Fixture& F)
       mean_l = mean_l > 0 ? mean_l / double(F.start.size()) : 1.;
       const double rel = std::pow(10., c["beta_exp"].get<double>());
       k.prior.beta = float(k.multiplicative ? rel / mean_l : rel * mean_s / mean_l);
+      if (k.beta_zero)
+        k.prior.beta = 0.F; // legal (GeneralisedPrior: penalisation factor, no lower bound documented; 0 = prior switched off)
     }
   return k;
 }
@@ -309,7 +324,7 @@ configure_fresh(OSMAPOSLReconstruction<target_type>& recon, const Cfg& k, const 
   recon.set_num_subiterations(k.n_sub);
   recon.set_start_subiteration_num(start);
   recon.set_start_subset_num(k.start_subset);
-  recon.set_save_interval(1);
+  recon.set_save_interval(k.save_interval);
   recon.set_randomise_subset_order(false);
   recon.set_output_filename_prefix(prefix);
   recon.set_output_file_format_ptr(float_interfile());
@@ -342,7 +357,7 @@ configure_used(OSMAPOSLReconstruction<target_type>& recon, const Cfg& k, const s
   recon.set_num_subiterations(k.n_sub);
   recon.set_start_subiteration_num(start);
   recon.set_start_subset_num(k.start_subset);
-  recon.set_save_interval(1);
+  recon.set_save_interval(k.save_interval);
   recon.set_randomise_subset_order(false);
   recon.set_output_filename_prefix(prefix);
   recon.set_enforce_initial_positivity(k.enforce);
@@ -396,7 +411,8 @@ execute(OSMAPOSLReconstruction<target_type>& recon, const Fixture& F, const Cfg&
     return "reconstruct returned Succeeded::no";
   out.iter.assign(std::size_t(k.n_sub) + 1, shared_ptr<target_type>());
   for (int j = start; j <= k.n_sub; ++j)
-    out.iter[std::size_t(j)] = read_image(F, cat(prefix, "_", j, ".hv"));
+    if (k.file_due(j)) // 'save estimates at subiteration intervals': multiples of the interval and the last sub-iteration
+      out.iter[std::size_t(j)] = read_image(F, cat(prefix, "_", j, ".hv"));
   out.final_in_memory = target;
   return "";
 }
@@ -427,6 +443,7 @@ resume_same_object(Osl& o, const Fixture& F, const Cfg& k, const std::string& pr
 {
   o.recon->set_start_subiteration_num(start);
   o.recon->set_output_filename_prefix(prefix);
+  o.recon->set_save_interval(k.save_interval);
   return execute(*o.recon, F, k, prefix, target, start, out, setup_rejected);
 }
 
@@ -441,7 +458,7 @@ parameter_text(const Cfg& k, const std::string& prefix, const std::string& initi
       << "number of subiterations := " << k.n_sub << "\n"
       << "start at subiteration number := " << start << "\n"
       << "start at subset := " << k.start_subset << "\n"
-      << "save estimates at subiteration intervals := 1\n"
+      << "save estimates at subiteration intervals := " << k.save_interval << "\n"
       << "uniformly randomise subset order := 0\n"
       << "initial estimate := " << initial_estimate << "\n"
       << "output filename prefix := " << prefix << "\n"
@@ -503,7 +520,8 @@ run_recon_files(const Fixture& F, const Cfg& k, const std::string& prefix, const
     }
   out.iter.assign(std::size_t(k.n_sub) + 1, shared_ptr<target_type>());
   for (int j = start; j <= k.n_sub; ++j)
-    out.iter[std::size_t(j)] = read_image(F, cat(prefix, "_", j, ".hv"));
+    if (k.file_due(j)) // 'save estimates at subiteration intervals': multiples of the interval and the last sub-iteration
+      out.iter[std::size_t(j)] = read_image(F, cat(prefix, "_", j, ".hv"));
   out.final_in_memory.reset();
   return "";
 }
@@ -569,7 +587,7 @@ check_step(const Fixture& F, const Cfg& k, const Expected& e, const std::vector<
       else if (k.any_filter())
         key = k.prior.kind ? "max rel err MAP update, run with filters, no filter due" : "max rel err EM update, run with filters, no filter due";
       else
-        key = k.prior.kind ? "max rel err MAP update" : "max rel err EM update";
+        key = k.prior.kind ? (k.beta_zero ? "max rel err update with a prior object of penalisation factor 0 (EM formula)" : "max rel err MAP update") : "max rel err EM update";
     }
   // statistics in units of the allowed amplification, so that the calibration of the base tolerance is visible
   std::vector<double> g = got, w = e.image;
@@ -883,9 +901,16 @@ check(const json& c_in)
                                           : (kind == 1 ? ", on the object that has run before"
                                                        : (files == 2 ? ", NEW objects reading image and sensitivities from files (parsed parameter texts, reconstruct())"
                                                                      : ", NEW objects reading image and sensitivities from files (setters)"));
-        const std::string msg = kind == 0 ? run_recon(F, k, bprefix, read_image(F, start_file), kk + 1, B, &rej)
-                                          : (kind == 1 ? resume_same_object(R, F, k, bprefix, read_image(F, start_file), kk + 1, B, &rej)
-                                                       : run_recon_files(F, k, bprefix, start_file, kk + 1, B, sf, files));
+        // AUD_E: the resumed runs save at the interval of the case (the checked run at every sub-iteration): the files that are due -
+        // multiples of the interval and the last sub-iteration - must hold the iterates of the uninterrupted run
+        Cfg kb = k;
+        kb.save_interval = k.save_b;
+        const std::string msg = kind == 0 ? run_recon(F, kb, bprefix, read_image(F, start_file), kk + 1, B, &rej)
+                                          : (kind == 1 ? resume_same_object(R, F, kb, bprefix, read_image(F, start_file), kk + 1, B, &rej)
+                                                       : run_recon_files(F, kb, bprefix, start_file, kk + 1, B, sf, files));
+        const bool first_saved = msg.empty() && bool(B.iter[std::size_t(kk + 1)]);
+        if (msg.empty() && kb.save_interval > 1)
+          stats().count("resumed runs with a save interval > 1");
         VF_CHECK(msg.empty(), hnote, "resumed run (start at sub-iteration ", kk + 1, how, ") failed: ", msg);
         if (kind == 1)
           stats().count("resumes on the same reconstruction object");
@@ -896,6 +921,8 @@ check(const json& c_in)
           {
             for (int j = kk + 1; j <= n; ++j)
               {
+                if (!B.iter[std::size_t(j)])
+                  continue; // not due at the save interval of the resumed run
                 const Result res = compare_images(kind == 2 ? "restart through files" : "restart", image_vec(F, *B.iter[std::size_t(j)]), lam[std::size_t(j)], nullptr, 1e-6,
                                                   kind == 2 ? "max rel diff restart through files (image and sensitivities read)" : "max rel diff restart",
                                                   cat(hnote, "(resumed at sub-iteration ", kk + 1, " from the image saved after ", kk, ", iterate ", j, " of ", n, ", N=", k.N,
@@ -908,7 +935,7 @@ check(const json& c_in)
               stats().count("restarts compared at k not a multiple of N");
             if (lifting_harmless)
               stats().count("restarts compared with lifted never-seen voxels");
-            if (kind == 2 && !lifting)
+            if (kind == 2 && !lifting && first_saved)
               {
                 // (7b) the first update of the run that READ its sensitivities: the formula with the harness's own sensitivities
                 // (decides the clause without reference to run A's arithmetic; same tolerance as clause (1)/(5))
@@ -923,7 +950,7 @@ check(const json& c_in)
                   stats().count("first updates of file-based resumes checked by formula");
               }
           }
-        else
+        else if (first_saved)
           {
             // documented behaviour of the option: the resumed run starts from the lifted image -> its first update is checked by formula
             bool ch;
@@ -939,6 +966,8 @@ check(const json& c_in)
           }
         for (int j = kk + 1; j <= n; ++j)
           {
+            if (!B.iter[std::size_t(j)])
+              continue;
             const std::vector<double> b = image_vec(F, *B.iter[std::size_t(j)]);
             for (std::size_t v = 0; v < b.size(); ++v)
               VF_CHECK(std::isfinite(b[v]) && b[v] >= 0., hnote, "resumed run (from ", kk, how, "): iterate ", j, " has value ", b[v], " at voxel ", v);
@@ -961,6 +990,16 @@ check(const json& c_in)
   stats().cls(cat("prior ", k.prior.kind == 0 ? "none" : (k.prior.kind == 1 ? "quadratic" : "RDP"), k.prior.kind ? (k.multiplicative ? " multiplicative" : " additive") : ""));
   if (k.prior.kappa && k.prior.kind)
     stats().cls("prior with kappa");
+  if (k.prior.kappa && k.prior.kind && k.prior.kzero != 0)
+    stats().cls(k.prior.kzero == 1 ? "kappa exactly 0 in voxels no bin sees" : "kappa exactly 0 in voxels no bin sees and in others");
+  if (k.prior.kind && k.beta_zero)
+    stats().cls("prior object with penalisation factor exactly 0");
+  if (k.prior.kind == 2 && k.prior.rdp_eps == 0.F)
+    stats().cls("RDP with epsilon = 0 (the class default)");
+  if (n % k.N != 0)
+    stats().cls("run ends inside a full iteration (number of sub-iterations not a multiple of N)");
+  if (k.save_b > 1 && n > 1)
+    stats().cls(k.save_b >= n ? "resumed runs save only the last sub-iteration" : "resumed runs save at an interval > 1");
   stats().cls(!k.any_filter() ? "filter none" : (k.fu.on() && k.fi.on() ? "inter-update and inter-iteration filter" : (k.fu.on() ? "inter-update filter" : "inter-iteration filter")));
   if (k.fu.on() && k.fu.negative_lobes())
     stats().cls("inter-update filter with negative lobes");
@@ -1026,6 +1065,13 @@ gen(Src& s, int size)
   while (iters > 1 && iters * N > 36)
     --iters; // budget: the restart clause costs n^2/2 sub-iterations
   c["iters"] = iters;
+  // AUD_E: a fifth of the runs with N > 1 end INSIDE a full iteration ("number of subiterations" is any number >= 1:
+  // IterativeReconstruction::set_up only calls error() below 1), so the last interruption points lie in an incomplete iteration
+  if (N > 1 && s.chance(1, 5))
+    c["n_sub"] = iters * N - int(s.range(1, N - 1));
+  // AUD_E: save interval of the RESUMED runs (the checked run saves every iterate); clipped to the number of sub-iterations in decode()
+  // (set_up calls error() above it); 36 >= every run length = "only the last sub-iteration is saved"
+  c["save_b"] = s.chance(2, 3) ? 1 : int(s.pick(std::vector<int>{ 2, 3, 5, 36 }));
   c["use_add"] = s.coin();
   c["use_norm"] = s.coin();
   c["use_subsens"] = s.chance(3, 4);
@@ -1036,9 +1082,16 @@ gen(Src& s, int size)
   c["prior"] = s.chance(1, 2) ? 0 : int(s.range(1, 2));
   c["beta_exp"] = s.real(-2.5, 1.5);
   c["kappa"] = s.chance(1, 3);
+  // AUD_E: exact zeros in the kappa image (legal: QuadraticPrior.h / RelativeDifferencePrior.h put no lower bound on kappa; the usual recipe
+  // kappa = sqrt(-approximate Hessian x 1) is 0 in every voxel no bin sees): the penalty share of such a voxel vanishes, the update there is pure EM
+  c["kzero"] = s.pick(std::vector<int>{ 0, 1, 2, 2 });
+  // AUD_E: a prior object whose penalisation factor is exactly 0 (1/8 of the prior cases): the one-step-late update degenerates to EM
+  c["beta_zero"] = s.chance(1, 8);
   c["map_mult"] = s.coin();
   c["rdp_gamma"] = s.pick(std::vector<double>{ 0., 1., 2. });
-  c["rdp_eps"] = s.pick(std::vector<double>{ 0.01, 0.1, 1. });
+  // AUD_E: epsilon = 0 is the DEFAULT of RelativeDifferencePrior and documented for the gradient (0/0 at two zero voxels resolved by the limit 0,
+  // RelativeDifferencePrior.h; only the Hessian is refused); OSMAPOSL uses the gradient only
+  c["rdp_eps"] = s.pick(std::vector<double>{ 0.01, 0.1, 1., 0. });
   // filters: none 10/16, inter-iteration only 3/16 (the inter-update filter stays at its default: off), inter-update only
   // 1/16, both 2/16; each with its own kind (Gaussian / Metz power 1..3 / separable convolution) and interval
   {
@@ -1049,6 +1102,12 @@ gen(Src& s, int size)
     c["filt_i"] = (fc >= 10 && fc != 13) ? gen_filter(s, N) : off;
   }
   c["enforce"] = s.coin();
+  // AUD_E: the 0/0 limit of the RDP gradient needs two neighbouring exact zeros: half of the RDP cases with epsilon = 0 keep the zeros of the start image
+  if (c["prior"].get<int>() == 2 && c["rdp_eps"].get<double>() == 0. && s.coin())
+    {
+      c["start_zeros"] = true;
+      c["enforce"] = false;
+    }
   c["other_img"] = s.chance(1, 3);
   c["relchange"] = s.chance(1, 6);
   c["minrc"] = s.pick(std::vector<double>{ 0., 0.25, 0.5, 0.9 });
@@ -1128,7 +1187,7 @@ gen(Src& s, int size)
 bool
 nontrivial(const json& c)
 {
-  return c["subsets"].get<int>() > 1 || c["use_add"].get<bool>() || c["use_norm"].get<bool>() || c["prior"].get<int>() != 0;
+  return c["subsets"].get<int>() > 1 || c["use_add"].get<bool>() || c["use_norm"].get<bool>() || (c["prior"].get<int>() != 0 && !c.value("beta_zero", false));
 }
 
 } // namespace
